@@ -19,18 +19,22 @@ ASSUMPTIONS = ["internal crypto backend: AES-GCM (RFC 7714) and AES-192 are not 
 def split_key(cipher, key):
     if cipher == ICM256:
         return key[:32], key[32:46]
+    if cipher == ICM192:
+        return key[:24], key[24:38]
     return key[:16], key[16:30]
 
 
-def build(rng, tier, ctx, padding_case=False):
+def build(rng, tier, ctx, padding_case=False, ciphers=None, n=None):
     """returns list of (name, script) — spec packets are computed by the extracted specification in a first pass"""
-    n = 16 if tier == "quick" else 160
+    n = n or (16 if tier == "quick" else 160)
     plans = []
     spec_lines = []
     for k in range(n):
         ssrc = rng.randrange(2, 1 << 32)
         cipher = rng.choice([ICM128, ICM128, ICM256, NULL_CIPHER]) if not padding_case else rng.choice([ICM128, ICM256])
-        klen = 46 if cipher == ICM256 else 30
+        if ciphers:
+            cipher = rng.choice(ciphers)
+        klen = 46 if cipher == ICM256 else (38 if cipher == ICM192 else 30)
         serv = rng.choice([3, 3, 2, 1]) if not padding_case else 3
         tag = rng.choice([4, 10, 10, 16])
         auth = HMAC
@@ -133,12 +137,20 @@ def monitor(script, c):
     sl = script.split("\n")
     out = {int(l.split()[0]): l.split() for l in c if l.strip()}
     ids = sl[0].split("|")[1].split()[0]
+    aes192 = int(sl[0].split()[5], 16) == 38      # AES-ICM-192 policy (key length 38): exists in the OpenSSL configuration only
     for i, l in enumerate(sl, 1):
         t = l.split()
         if len(t) < 3 or t[0] != "#":
             continue
         o = out.get(i - 1, [])
         if len(o) < 5:
+            continue
+        if aes192 and t[1] in ("W", "X") and ((t[1] == "W" and int(o[2], 16) == 0 and o[4] != t[2]) or (t[1] == "X" and (int(o[2], 16) != 0 or o[4] != t[2]))):
+            # every AES-192 packet differs from the RFC 6188 specification in the same way: the session keys are derived with
+            # an AES-256 KDF over the zero-padded master key
+            if not any(h["signature"] == "aes192-kdf-not-rfc6188" for h in hits):
+                hits.append({"what": "AES-192 policy: packets differ from RFC 3711 / RFC 6188 (session keys derived with an AES-256 key derivation)",
+                             "signature": "aes192-kdf-not-rfc6188", "detail": f"line {i-1}"})
             continue
         if t[1] == "W":
             if int(o[2], 16) == 0 and o[4] != t[2]:
@@ -170,7 +182,52 @@ def monitor(script, c):
     return hits
 
 
+# ---- AES-GCM (RFC 7714): the known-answer packets the repo's own driver carries (test/srtp_driver.c, srtp_validate_gcm),
+# i.e. the RFC 7714 section 16 / 17 examples for AEAD_AES_128_GCM; checked on the implementation built against OpenSSL
+GCM_KEY = bytes(range(16)) + bytes(range(0xa0, 0xac))
+GCM_RTP_PLAIN = bytes.fromhex("800f1234decafbadcafebabe" + "ab" * 16)
+GCM_SRTP = bytes.fromhex("800f1234decafbadcafebabec5002ede04cfdd2eb91159e0880aa06ed2976826f796b201df3131a127e8a392")
+GCM_RTCP_PLAIN = bytes.fromhex("81c8000bcafebabe" + "ab" * 16)
+GCM_SRTCP = bytes.fromhex("81c8000bcafebabec98b8b5df0392a55852b6c21ac8e7025c52c6fbea2b3b446ea31123ba88ce61e80000001")
+
+
+def gcm_kat_scripts():
+    g = gcm_cp(128, 16, 3)
+    p = default_policy(random.Random(7714), 0xcafebabe, rtp=g, rtcp=g, keys=[(GCM_KEY, b"")])
+    out = []
+    for mode in (0, 1):
+        L = [p.line(1), "create 1 1", "create 2 1", "create 3 1"]
+        L.append(pkt_op("protect", 1, GCM_RTP_PLAIN, cap=len(GCM_SRTP), mode=mode)); L.append(f"# KAT {GCM_SRTP.hex()}")
+        L.append(pkt_op("unprotect", 2, GCM_SRTP, cap=len(GCM_SRTP), mode=mode)); L.append(f"# KAT {GCM_RTP_PLAIN.hex()}")
+        L.append(pkt_op("protect_rtcp", 1, GCM_RTCP_PLAIN, cap=len(GCM_SRTCP), mode=mode)); L.append(f"# KAT {GCM_SRTCP.hex()}")
+        L.append(pkt_op("unprotect_rtcp", 2, GCM_SRTCP, cap=len(GCM_SRTCP), mode=mode)); L.append(f"# KAT {GCM_RTCP_PLAIN.hex()}")
+        L += ["dealloc 1", "dealloc 2", "dealloc 3"]
+        out.append((f"rfc7714-kat-mode{mode}", "\n".join(L) + "\n"))
+    return out
+
+
+def kat_monitor(script, c):
+    hits = []
+    sl = script.split("\n")
+    out = {int(l.split()[0]): l.split() for l in c if l.strip()}
+    for i, l in enumerate(sl, 1):
+        t = l.split()
+        if len(t) > 2 and t[0] == "#" and t[1] == "KAT":
+            o = out.get(i - 1, [])
+            if len(o) < 5 or o[2] != "0" or o[4] != t[2]:
+                hits.append({"what": "AES-GCM packet differs from the RFC 7714 known-answer vector", "signature": "rfc7714-kat:" + (o[1] if len(o) > 1 else "?"),
+                             "detail": f"line {i-1}: status {o[2] if len(o) > 2 else '?'} got {o[4][:90] if len(o) > 4 else '-'} expected {t[2][:90]}"})
+                break
+    return hits
+
+
 def families(tier, seed, ctx):
     rng = random.Random(seed * 1000 + 3)
     return [Family("wire-vs-rfc", build(rng, tier, ctx), monitor=monitor),
-            Family("rfc6904-inner-padding", build(rng, "quick", ctx, padding_case=True)[:6], monitor=monitor)]
+            Family("rfc6904-inner-padding", build(rng, "quick", ctx, padding_case=True)[:6], monitor=monitor),
+            Family("rfc7714-vectors", gcm_kat_scripts(), monitor=kat_monitor, config="openssl"),
+            # the OpenSSL back end's AES-ICM / HMAC glue (aes_icm_ossl.c, hmac_ossl.c) and AES-192 (RFC 6188), which only that
+            # configuration has, against the same RFC specification
+            Family("wire-vs-rfc-openssl", [("corpus-aes192", build(random.Random(6188), "quick", ctx, ciphers=[ICM192], n=1)[0][1])] +
+                   build(random.Random(seed * 1000 + 103), tier, ctx, ciphers=[ICM128, ICM256, ICM192, ICM192], n=(8 if tier == "quick" else 100)),
+                   monitor=monitor, config="openssl")]
